@@ -94,6 +94,12 @@ pub struct Plan {
     /// thread has is the host's business (main thread, pool thread, RUST_MIN_STACK, ulimit -s).
     #[serde(default, skip_serializing_if = "Vec::is_empty")]
     pub stack_kib: Vec<u32>,
+    /// the host's diagnostics `Handler`: false = one per file; true = one for all files of the run
+    /// (swc's `Handler` drops a diagnostic it has already seen - same message, same span - and does
+    /// not count it, so WHICH diagnostics come out is then the host's business and is not compared;
+    /// the generated code still is)
+    #[serde(default, skip_serializing_if = "std::ops::Not::not")]
+    pub handler_shared: bool,
     pub tasks: Vec<PlanTask>,
 }
 
